@@ -378,13 +378,6 @@ def extra_coverage(results):
 # chain's deadline as (clock reading when the group fired) + prekill_hook_timeout is decided here, on the real
 # ConfigCompiler + Engine + Ruleset driven by scripted plugins (engine h_engine, driver drv_engine, clauses C07.deadline_*).
 
-class _EngMod:
-    PROP = PROP
-    ENGINE = "engine"
-    HARNESS = "h_engine"
-    FLAVOUR = "asan"
-
-
 def gen_deadline(rng, tier):
     from . import _engine as E
     n = {"quick": 600, "thorough": 12000, "search": 3000}[tier]
@@ -401,61 +394,18 @@ def gen_deadline(rng, tier):
 
 def deadline_pass(tier, seed, only=None):
     """returns (violations [(class, replay path)], coverage dict)"""
-    import json
     import random
     from . import _engine as E
     from .. import core
-    ok, failed, out = core.lake_build(["drv_engine"], translate=False)
-    if not ok or not os.path.exists(core.driver_path("engine")):
-        raise core.InfraError("drv_engine could not be built: %s" % failed)
-    exe = core.build_harness("h_engine", "asan")
-    ck = core.Check(_EngMod, tier, seed)
     if only is not None:
         scs = only
     else:
-        scs = list(gen_deadline(random.Random(seed * 7907 + 13), tier))
-    for i, s in enumerate(scs):
-        s.setdefault("id", "C07-dl-s%d-%d" % (seed, i))
-    res = ck.execute(exe, scs)
-    failing = [(s, t, v) for (s, t, v) in res if not v.get("holds", True) or core.bad_outcome(t)]
-    resumed = fresh = 0
-    for s, t, v in res:
-        na, ns, nas = E.stats(s, t)
-        resumed += nas
-        fresh += 1 if na else 0
-    cov = {"deadline_pass_histories": len(res), "deadline_pass_async_returns": resumed, "deadline_pass_histories_with_actions": fresh,
-           "deadline_pass_failures": len(failing)}
-    viol = []
-    if failing:
-        by = {}
-        for s, t, v in failing:
-            c = core.bad_outcome(t) and ("outcome:" + t.get("outcome", "?")) or (v.get("violated") or ["?"])[0]
-            by.setdefault(c, []).append((s, t, v))
-        for c, items in sorted(by.items()):
-            items.sort(key=lambda x: len(json.dumps(x[0])))
-            s, t, v = items[0]
-
-            def pred(cs, ct, cv, c=c):
-                return (core.bad_outcome(ct) and "outcome:" + ct.get("outcome", "?") == c) or c in (cv.get("violated") or [])
-            cur, improved = s, True
-            while improved:
-                improved = False
-                cands = []
-                for i, cnd in enumerate(E.shrink_candidates(cur)):
-                    cnd = dict(cnd, id="shr-%d" % i)
-                    cands.append(cnd)
-                    if len(cands) >= 64:
-                        break
-                for (cs, ct, cv) in (ck.execute(exe, cands) if cands else []):
-                    if pred(cs, ct, cv):
-                        cur, improved = cs, True
-                        break
-            if cur is not s:
-                (s, t, v) = ck.execute(exe, [cur])[0]
-            rp = ck.write_replay("%s-%d-%s.json" % (PROP, seed, c.replace(":", "_").replace("C07.", "")[:60]),
-                                 {"property": PROP, "class": c, "kind": "failing-input", "engine": "h_engine", "count": len(items),
-                                  "scenario": s, "impl_trace": t, "verdict": v})
-            viol.append((c, rp))
+        esc = tier == "quick" and core.changed_sources() and not os.environ.get("VERIF_NO_ESCALATION")
+        scs = list(gen_deadline(random.Random(seed * 7907 + 13), "search" if esc else tier))
+    viol, cov, res = core.extra_pass(PROP, "engine", "h_engine", "asan", scs, tier, seed,
+                                     want=lambda c: c.startswith("C07.") or c.startswith("trace"),
+                                     shrink_candidates=E.shrink_candidates, label="deadline")
+    cov["deadline_pass_async_returns"] = sum(E.stats(s, t)[2] for s, t, v in res)
     return viol, cov
 
 
@@ -476,18 +426,11 @@ def run(tier, seed, replay=None):
     if replay:
         return rc
     viol, cov = deadline_pass(tier, seed)
-    evp = os.path.join(core.EVIDENCE_DIR, PROP + ".json")
-    ev = json.load(open(evp))
-    ev["coverage"].update(cov)
-    ev["coverage"]["rule"] += (" || deadline pass (real Ruleset, scripted plugins, h_engine): histories with 30-70% ASYNC_PAUSED action "
-                               "returns and detector groups firing again while a chain is suspended; clauses: a resumed action sees "
-                               "the deadline of the tick its chain fired; a fresh chain's deadline = reading at group fire + "
-                               "prekill_hook_timeout")
-    ev["coverage"]["evaluations"] += cov["deadline_pass_histories"]
-    ev["violations"] = ev.get("violations", 0) + len(viol)
-    ev["wall_s"] = round(ev["wall_s"] + 0.0, 2)
-    with open(evp, "w") as f:
-        json.dump(ev, f, indent=1)
+    core.merge_extra_into_evidence(PROP, cov, len(viol),
+                                   "deadline pass (real Ruleset, scripted plugins, h_engine): histories with 30-70% ASYNC_PAUSED "
+                                   "action returns and detector groups firing again while a chain is suspended; clauses: a resumed "
+                                   "action sees the deadline of the tick its chain fired; a fresh chain's deadline = reading at "
+                                   "group fire + prekill_hook_timeout")
     for c, p in viol:
         print("VIOLATION property=%s replay=%s" % (PROP, p))
     return 1 if (rc or viol) else 0
